@@ -1,18 +1,1103 @@
 package main
 
-// Directed families: short scripts with enumerated parameters (see DESIGN 2.4).
+// Directed families: short scripts over the schedules the properties single out, with
+// their parameters enumerated (thorough) or sampled by the seed (quick). All monitors
+// judge every step of them exactly as they judge random histories.
 
+import (
+	"fmt"
+	"math"
+	"math/rand"
+	"time"
+
+	sdk "github.com/cosmos/cosmos-sdk/types"
+
+	"github.com/irismod/service/types"
+)
+
+const blockDt = 5 * time.Second
+
+// Sc is a small scenario DSL over a Run.
+type Sc struct {
+	r *Run
+	A *Actors
+	p types.Params
+}
+
+func baseParams() types.Params {
+	p := types.DefaultParams()
+	p.MaxRequestTimeout = 5
+	p.MinDepositMultiple = 10
+	p.MinDeposit = sdk.NewCoins(sdk.NewCoin(denom, sdk.NewInt(50)))
+	p.ServiceFeeTax = sdk.NewDecWithPrec(1, 1)
+	p.SlashFraction = sdk.NewDecWithPrec(1, 1)
+	p.ComplaintRetrospect = 10 * time.Second
+	p.ArbitrationTimeLimit = 5 * time.Second
+	return p
+}
+
+func newSc(a *App, mon *Mon, name string, seed int64, p types.Params, mid, poor int64, modsvc string) *Sc {
+	r := NewRun(a, name, seed, p, mon)
+	act := MakeActors()
+	act.FundAll(r, 1_000_000_000, mid, poor)
+	if modsvc != "" {
+		r.InstallModuleService(modsvc)
+	}
+	r.Begin()
+	return &Sc{r: r, A: act, p: p}
+}
+
+func (s *Sc) define(name string) {
+	s.r.Msg(types.NewMsgDefineService(name, "d", nil, s.A.Owners[0], "a", goodSchemas), "")
+}
+
+func (s *Sc) bind(svc string, prov, owner sdk.AccAddress, dep int64, pricing string, qos uint64) StepResult {
+	return s.r.Msg(types.NewMsgBindService(svc, prov, coins(dep), pricing, qos, "{}", owner), "")
+}
+
+func price(base string) string { return fmt.Sprintf(`{"price":"%s%s"}`, base, denom) }
+
+func (s *Sc) call(svc string, provs []sdk.AccAddress, cons sdk.AccAddress, cap, timeout int64, super, rep bool, freq uint64, total int64) string {
+	res := s.r.Msg(types.NewMsgCallService(svc, provs, cons, goodInput, coins(cap), timeout, super, rep, freq, total), "")
+	return res.NewCtxID
+}
+
+func (s *Sc) modCreate(svc string, provs []sdk.AccAddress, cons sdk.AccAddress, cap, timeout int64, rep bool, freq uint64, total int64, thr uint32) string {
+	var ph []string
+	for _, p := range provs {
+		ph = append(ph, hexs(p))
+	}
+	res := s.r.Mod(ModOp{Op: "create", Service: svc, Providers: ph, Consumer: hexs(cons), Input: goodInput, FeeCap: cap, Timeout: timeout,
+		Repeated: rep, Freq: freq, Total: total, Threshold: thr, Module: verifModule}, "")
+	return res.NewCtxID
+}
+
+func (s *Sc) block() { s.r.Block(blockDt) }
+
+// pendingOf lists the pending request IDs of a context addressed to prov (any if nil).
+func (s *Sc) pendingOf(ctxID string, prov sdk.AccAddress) []string {
+	var out []string
+	for _, id := range s.r.pre.PendingIDs() {
+		r := s.r.pre.Requests[id]
+		if hexs(r.RequestContextId) == ctxID && (prov == nil || prov.Equals(r.Provider)) {
+			out = append(out, id)
+		}
+	}
+	return out
+}
+
+func (s *Sc) respond(rid string, prov sdk.AccAddress, kind int) StepResult {
+	result, output := goodResult, goodOutput
+	switch kind {
+	case 1:
+		output = `{"body":{}}`
+	case 2:
+		result, output = `{"code":500,"message":"e"}`, ""
+	}
+	return s.r.Msg(types.NewMsgRespondService(unhex(rid), prov, result, output), "")
+}
+
+func (s *Sc) ctl(op string, ctxID string, signer sdk.AccAddress) StepResult {
+	switch op {
+	case "pause":
+		return s.r.Msg(types.NewMsgPauseRequestContext(unhex(ctxID), signer), "")
+	case "start":
+		return s.r.Msg(types.NewMsgStartRequestContext(unhex(ctxID), signer), "")
+	case "kill":
+		return s.r.Msg(types.NewMsgKillRequestContext(unhex(ctxID), signer), "")
+	}
+	panic(op)
+}
+
+func (s *Sc) modCtl(op string, ctxID string, cons sdk.AccAddress) StepResult {
+	return s.r.Mod(ModOp{Op: op, CtxID: ctxID, Consumer: hexs(cons)}, "")
+}
+
+func (s *Sc) done() { s.r.Finish() }
+
+// ---------------------------------------------------------------------------
+// F1: cadence x control-operation placement
+
+type cadenceCase struct {
+	T      int64
+	F      uint64
+	Total  int64
+	Op     string // none|pause|kill|update-total|update-time|pause-start-same
+	OpAt   int    // block offset (0 = block of the call) at which the op is sent
+	Start  int    // blocks after the pause at which start is sent (0 = never)
+	Module bool
+	Answer int // 0 nobody answers, 1 everybody answers next block, 2 first provider only
+}
+
+func runCadence(a *App, mon *Mon, seed int64, c cadenceCase) {
+	p := baseParams()
+	s := newSc(a, mon, fmt.Sprintf("cadence-%+v", c), seed, p, 1_000_000, 3, "")
+	p1, p2 := s.A.SignProv[0], s.A.SignProv[1]
+	s.define("svc")
+	s.bind("svc", p1, s.A.Owners[0], 1000, price("2"), 1)
+	s.bind("svc", p2, s.A.Owners[1], 1000, price("3"), 1)
+	cons := s.A.Consumers[0]
+	var id string
+	if c.Module {
+		cons = s.A.ModCons
+		id = s.modCreate("svc", []sdk.AccAddress{p1, p2}, cons, 10, c.T, true, c.F, c.Total, 2)
+	} else {
+		id = s.call("svc", []sdk.AccAddress{p1, p2}, cons, 10, c.T, false, true, c.F, c.Total)
+	}
+	if id == "" {
+		s.done()
+		return
+	}
+	n := int(c.T) + 2
+	if c.Total > 0 {
+		n += int(c.Total) * int(c.F)
+	} else {
+		n += 4 * int(c.F)
+	}
+	n += c.OpAt + c.Start
+	if n > 40 {
+		n = 40
+	}
+	op := func(o string) {
+		if c.Module {
+			s.modCtl(o, id, cons)
+		} else {
+			s.ctl(o, id, cons)
+		}
+	}
+	for b := 0; b < n; b++ {
+		// messages of this block
+		if c.Answer > 0 {
+			for _, rid := range s.pendingOf(id, p1) {
+				s.respond(rid, p1, 0)
+			}
+			if c.Answer == 1 {
+				for _, rid := range s.pendingOf(id, p2) {
+					s.respond(rid, p2, 0)
+				}
+			}
+		}
+		if b == c.OpAt {
+			switch c.Op {
+			case "pause":
+				op("pause")
+			case "kill":
+				op("kill")
+			case "pause-start-same":
+				op("pause")
+				op("start")
+			case "update-total":
+				if c.Module {
+					s.r.Mod(ModOp{Op: "update", CtxID: id, Consumer: hexs(cons), Total: c.Total + 1}, "")
+				} else {
+					s.r.Msg(types.NewMsgUpdateRequestContext(unhex(id), nil, nil, 0, 0, c.Total+1, cons), "")
+				}
+			case "update-time":
+				nt := c.T%3 + 1
+				nf := uint64(nt) + 1
+				if c.Module {
+					s.r.Mod(ModOp{Op: "update", CtxID: id, Consumer: hexs(cons), Timeout: nt, Freq: nf}, "")
+				} else {
+					s.r.Msg(types.NewMsgUpdateRequestContext(unhex(id), nil, nil, nt, nf, 0, cons), "")
+				}
+			}
+		}
+		if c.Op == "pause" && c.Start > 0 && b == c.OpAt+c.Start {
+			op("start")
+		}
+		if c.Op == "kill" && c.Start > 0 && b == c.OpAt+c.Start {
+			op("start") // must be refused: completed is final
+		}
+		s.block()
+	}
+	s.done()
+}
+
+func cadenceCases() []cadenceCase {
+	var out []cadenceCase
+	for _, T := range []int64{1, 2, 3} {
+		for _, df := range []uint64{0, 1, 2, 4} {
+			F := uint64(T) + df
+			for _, total := range []int64{1, 2, 3, -1} {
+				for _, ans := range []int{0, 1, 2} {
+					out = append(out, cadenceCase{T: T, F: F, Total: total, Op: "none", Answer: ans})
+				}
+				span := int(F)*2 + int(T) + 1
+				for _, op := range []string{"pause", "kill", "update-total", "update-time", "pause-start-same"} {
+					for at := 0; at <= span; at++ {
+						starts := []int{0}
+						if op == "pause" || op == "kill" {
+							starts = []int{0, 1, 2, int(T), int(T) + 1, int(F), int(F) + 1, int(F) + int(T) + 1}
+						}
+						for _, st := range starts {
+							out = append(out, cadenceCase{T: T, F: F, Total: total, Op: op, OpAt: at, Start: st, Answer: (at + st) % 3})
+						}
+					}
+				}
+			}
+		}
+	}
+	// module-owned variants of a subset
+	n := len(out)
+	for i := 0; i < n; i += 7 {
+		c := out[i]
+		c.Module = true
+		out = append(out, c)
+	}
+	return out
+}
+
+// ---------------------------------------------------------------------------
+// F2: response placement
+
+type respCase struct {
+	T       int64
+	NProv   int
+	Offsets []int // per provider: 0 = never, k = k blocks after issue (1..T+1)
+	Kinds   []int // per provider: 0 good, 1 malformed, 2 no output
+	Twice   bool
+	Stranger bool
+	Mid     string // none|pause|kill|update : context operation one block after issue
+	Module  bool
+	Thr     uint32
+	Super   bool
+}
+
+func runResp(a *App, mon *Mon, seed int64, c respCase) {
+	p := baseParams()
+	p.SlashFraction = []sdk.Dec{sdk.NewDecWithPrec(1, 1), sdk.ZeroDec(), sdk.OneDec(), sdk.NewDecWithPrec(5, 1)}[seed%4]
+	p.ServiceFeeTax = []sdk.Dec{sdk.NewDecWithPrec(1, 1), sdk.ZeroDec(), sdk.NewDecWithPrec(5, 1)}[seed%3]
+	s := newSc(a, mon, fmt.Sprintf("resp-%+v", c), seed, p, 1_000_000, 3, "")
+	provs := s.A.SignProv[:c.NProv]
+	s.define("svc")
+	prices := []string{"1", "2", "7"}
+	for i, pr := range provs {
+		s.bind("svc", pr, s.A.Owners[i%2], 600, price(prices[i]), 1)
+	}
+	cons := s.A.Consumers[0]
+	var id string
+	rep := c.Mid != "none"
+	if c.Module {
+		cons = s.A.ModCons
+		id = s.modCreate("svc", provs, cons, 10, c.T, rep, uint64(c.T)+1, 2, c.Thr)
+	} else {
+		id = s.call("svc", provs, cons, 10, c.T, c.Super, rep, uint64(c.T)+1, 2)
+	}
+	if id == "" {
+		s.done()
+		return
+	}
+	s.block() // batch 1 issued here
+	reqOf := map[int]string{}
+	for i, pr := range provs {
+		if ids := s.pendingOf(id, pr); len(ids) > 0 {
+			reqOf[i] = ids[0]
+		}
+	}
+	for b := 1; b <= int(c.T)+2; b++ {
+		if b == 1 {
+			switch c.Mid {
+			case "pause", "kill":
+				if c.Module {
+					s.modCtl(c.Mid, id, cons)
+				} else {
+					s.ctl(c.Mid, id, cons)
+				}
+			case "update":
+				if c.Module {
+					s.r.Mod(ModOp{Op: "update", CtxID: id, Consumer: hexs(cons), Timeout: c.T%3 + 1, Freq: uint64(c.T%3+1) + 2}, "")
+				} else {
+					s.r.Msg(types.NewMsgUpdateRequestContext(unhex(id), nil, nil, c.T%3+1, uint64(c.T%3+1)+2, 0, cons), "")
+				}
+			}
+		}
+		for i, pr := range provs {
+			if c.Offsets[i] == b && reqOf[i] != "" {
+				if c.Stranger {
+					s.respond(reqOf[i], s.A.Stranger, c.Kinds[i])
+					s.respond(reqOf[i], provs[(i+1)%len(provs)], c.Kinds[i])
+				}
+				s.respond(reqOf[i], pr, c.Kinds[i])
+				if c.Twice {
+					s.respond(reqOf[i], pr, 0)
+				}
+			}
+		}
+		s.block()
+	}
+	// after everything expired: late responses and an unknown id
+	for i, pr := range provs {
+		if reqOf[i] != "" {
+			s.respond(reqOf[i], pr, 0)
+		}
+	}
+	unknown := make([]byte, 58)
+	copy(unknown, sha256Sum("unknown"))
+	s.respond(hexs(unknown), provs[0], 0)
+	s.block()
+	s.done()
+}
+
+func respCases(rng *rand.Rand, n int) []respCase {
+	var out []respCase
+	for i := 0; i < n; i++ {
+		c := respCase{T: int64(1 + rng.Intn(4)), NProv: 1 + rng.Intn(3), Twice: rng.Intn(4) == 0, Stranger: rng.Intn(4) == 0,
+			Mid: []string{"none", "none", "pause", "kill", "update"}[rng.Intn(5)], Module: rng.Intn(3) == 0, Super: rng.Intn(8) == 0}
+		for j := 0; j < c.NProv; j++ {
+			c.Offsets = append(c.Offsets, rng.Intn(int(c.T)+3)) // 0..T+2
+			c.Kinds = append(c.Kinds, []int{0, 0, 1, 2}[rng.Intn(4)])
+		}
+		c.Thr = uint32(1 + rng.Intn(c.NProv))
+		if c.Module {
+			c.Super = false
+		}
+		out = append(out, c)
+	}
+	return out
+}
+
+// ---------------------------------------------------------------------------
+// F3: consumer funds around the batch cost, one or several due contexts
+
+type fundsCase struct {
+	Margin  int64 // consumer balance = cost*NCtxPaid + Margin
+	NCtx    int   // contexts of the same consumer due in the same block
+	Paid    int   // how many of them the balance covers
+	Super   bool
+	Module  bool
+	Base    string
+}
+
+func runFunds(a *App, mon *Mon, seed int64, c fundsCase) {
+	p := baseParams()
+	base := c.Base
+	op, _ := ParsePricingText(price(base))
+	unit := op.Base.Int64()
+	if unit < 1 {
+		unit = 1
+	}
+	cost := unit * 2 // two providers
+	bal := cost*int64(c.Paid) + c.Margin
+	if bal < 0 {
+		bal = 0
+	}
+	s := newSc(a, mon, fmt.Sprintf("funds-%+v", c), seed, p, bal, 0, "")
+	p1, p2 := s.A.SignProv[0], s.A.SignProv[1]
+	s.define("svc")
+	s.bind("svc", p1, s.A.Owners[0], 100000, price(base), 1)
+	s.bind("svc", p2, s.A.Owners[1], 100000, price(base), 1)
+	cons := s.A.Consumers[1] // the "mid" consumer holds exactly bal
+	var ids []string
+	for i := 0; i < c.NCtx; i++ {
+		if c.Module {
+			s.r.w.Fund("modconsumer-extra", s.A.ModCons, sdk.ZeroInt())
+			ids = append(ids, s.modCreate("svc", []sdk.AccAddress{p1, p2}, cons, unit, 2, true, 3, 3, 1))
+		} else {
+			ids = append(ids, s.call("svc", []sdk.AccAddress{p1, p2}, cons, unit, 2, c.Super, true, 3, 3))
+		}
+	}
+	s.block()
+	for _, id := range ids {
+		for _, rid := range s.pendingOf(id, p1) {
+			s.respond(rid, p1, 0)
+		}
+	}
+	s.block()
+	// paused contexts are started again: with and without fresh money
+	for i, id := range ids {
+		if rc, ok := s.r.pre.Contexts[id]; ok && rc.State == types.PAUSED {
+			if i%2 == 0 {
+				s.r.Msg(types.NewMsgSetWithdrawAddress(s.A.Owners[0], cons), "route owner earnings to the consumer")
+				s.r.Msg(types.NewMsgWithdrawEarnedFees(s.A.Owners[0], nil), "")
+			}
+			if c.Module {
+				s.modCtl("start", id, cons)
+			} else {
+				s.ctl("start", id, cons)
+			}
+		}
+	}
+	for b := 0; b < 8; b++ {
+		s.block()
+	}
+	s.done()
+}
+
+func fundsCases() []fundsCase {
+	var out []fundsCase
+	for _, base := range []string{"1", "3", "0", "0.5"} {
+		for _, n := range []int{1, 2, 3, 5} {
+			for paid := 0; paid <= n; paid++ {
+				for _, m := range []int64{-1, 0, 1} {
+					out = append(out, fundsCase{Margin: m, NCtx: n, Paid: paid, Base: base})
+				}
+			}
+		}
+		out = append(out, fundsCase{Margin: 0, NCtx: 2, Paid: 0, Super: true, Base: base})
+		out = append(out, fundsCase{Margin: -1, NCtx: 1, Paid: 1, Module: true, Base: base})
+		out = append(out, fundsCase{Margin: 0, NCtx: 2, Paid: 1, Module: true, Base: base})
+	}
+	return out
+}
+
+// ---------------------------------------------------------------------------
+// F4: prices around one unit, time windows and volume thresholds
+
+type priceCase struct {
+	Base     string
+	TimeDisc string
+	VolDisc  string
+	VolAt    uint64
+	CapDelta int64 // cap = base + CapDelta
+}
+
+func runPrice(a *App, mon *Mon, seed int64, c priceCase) {
+	p := baseParams()
+	p.MinDepositMultiple = 1
+	s := newSc(a, mon, fmt.Sprintf("price-%+v", c), seed, p, 1_000_000, 3, "")
+	// window [genesis+10s, genesis+20s): blocks are 5 s apart, so block times hit
+	// before / at start / inside / at end / after; a second window follows back to back
+	pricing := fmt.Sprintf(`{"price":"%s%s"`, c.Base, denom)
+	if c.TimeDisc != "" {
+		pricing += fmt.Sprintf(`,"promotions_by_time":[{"start_time":"%s","end_time":"%s","discount":"%s"},{"start_time":"%s","end_time":"%s","discount":"0.9"}]`,
+			genesisTime.Add(10*time.Second).Format(time.RFC3339), genesisTime.Add(20*time.Second).Format(time.RFC3339), c.TimeDisc,
+			genesisTime.Add(20*time.Second).Format(time.RFC3339), genesisTime.Add(25*time.Second).Format(time.RFC3339))
+	}
+	if c.VolDisc != "" {
+		pricing += fmt.Sprintf(`,"promotions_by_volume":[{"volume":%d,"discount":"%s"},{"volume":%d,"discount":"0.1"}]`, c.VolAt, c.VolDisc, c.VolAt+2)
+	}
+	pricing += "}"
+	p1 := s.A.SignProv[0]
+	s.define("svc")
+	s.bind("svc", p1, s.A.Owners[0], 100000, pricing, 1)
+	op, err := ParsePricingText(pricing)
+	if err != nil {
+		s.done()
+		return
+	}
+	cap := op.Base.Int64() + c.CapDelta
+	if cap < 1 {
+		cap = 1
+	}
+	cons := s.A.Consumers[0]
+	// one request per block (timeout 1, frequency 1), answered in the next block: volume
+	// grows by one per block while the block time walks through the windows
+	id := s.call("svc", []sdk.AccAddress{p1}, cons, cap, 1, false, true, 1, 9)
+	for b := 0; b < 11; b++ {
+		for _, rid := range s.pendingOf(id, p1) {
+			kind := 0
+			if b == 3 {
+				kind = 1 // a malformed response in the middle
+			}
+			s.respond(rid, p1, kind)
+		}
+		if b == 5 {
+			// jump so that the next block time is 1 ns before / exactly at a boundary
+			s.r.Block(blockDt - 1)
+			s.r.Block(1)
+			continue
+		}
+		s.block()
+	}
+	s.done()
+}
+
+func priceCases() []priceCase {
+	var out []priceCase
+	for _, base := range []string{"0", "1", "2", "3", "10", "0.9", "1.5", "100"} {
+		for _, td := range []string{"", "0.1", "0.5", "0.9", "0.999", "0.000000000000000001"} {
+			for _, vd := range []string{"", "0.5", "0.25"} {
+				for _, va := range []uint64{1, 2, 4} {
+					if vd == "" && va != 1 {
+						continue
+					}
+					for _, cd := range []int64{0, -1} {
+						out = append(out, priceCase{Base: base, TimeDisc: td, VolDisc: vd, VolAt: va, CapDelta: cd})
+					}
+				}
+			}
+		}
+	}
+	return out
+}
+
+// ---------------------------------------------------------------------------
+// F5: deposits around the minimum; slash; refund timing
+
+type depositCase struct {
+	Base      int64
+	Multiple  int64
+	MinParam  int64
+	Slash     string
+	DepDelta  int64 // deposit at bind = minimum + DepDelta
+	NewBase   int64 // price update
+	TopUp     int64 // relative to what the new price needs
+	Failures  int   // requests left to expire in one block
+	RefundOff int64 // ns relative to the refundable instant
+}
+
+func runDeposit(a *App, mon *Mon, seed int64, c depositCase) {
+	p := baseParams()
+	p.MinDepositMultiple = c.Multiple
+	if c.MinParam == 0 {
+		p.MinDeposit = sdk.Coins{}
+	} else {
+		p.MinDeposit = coins(c.MinParam)
+	}
+	p.SlashFraction = sdk.MustNewDecFromStr(c.Slash)
+	s := newSc(a, mon, fmt.Sprintf("deposit-%+v", c), seed, p, 1_000_000, 3, "")
+	o := s.A.Owners[0]
+	p1, p2 := s.A.SignProv[0], s.A.OddProv[0]
+	s.define("svc")
+	pr := price(fmt.Sprint(c.Base))
+	min := MinDeposit(p, mustPricing(pr)).Int64()
+	dep := min + c.DepDelta
+	if dep < 0 {
+		dep = 0
+	}
+	s.bind("svc", p1, o, dep, pr, 1)
+	s.bind("svc", p1, o, min, pr, 1) // second attempt with exactly the minimum (or duplicate)
+	s.bind("svc", p2, o, min+5, pr, 1)
+	// price change with a top-up around what it needs
+	npr := price(fmt.Sprint(c.NewBase))
+	nmin := MinDeposit(p, mustPricing(npr)).Int64()
+	cur := int64(0)
+	if b, ok := s.r.pre.Bindings[bkey("svc", p1)]; ok {
+		cur = coinsAmt(b.Deposit).Int64()
+	}
+	need := nmin - cur + c.TopUp
+	if need < 0 {
+		need = 0
+	}
+	s.r.Msg(types.NewMsgUpdateServiceBinding("svc", p1, coins(need), npr, 0, "{}", o), "price change")
+	s.r.Msg(types.NewMsgUpdateServiceBinding("svc", p1, nil, "", 1, "{}", o), "response time only")
+	// failures: contexts left to expire
+	cons := s.A.Consumers[0]
+	for i := 0; i < c.Failures; i++ {
+		s.call("svc", []sdk.AccAddress{p1, p2}, cons, 1000, 1, false, false, 0, 0)
+	}
+	s.block()
+	s.block() // expiry: slashes
+	// disable / enable around the minimum
+	s.r.Msg(types.NewMsgDisableServiceBinding("svc", p1, o), "")
+	s.r.Msg(types.NewMsgDisableServiceBinding("svc", p2, o), "")
+	var bmin, bdep int64
+	if b, ok := s.r.pre.Bindings[bkey("svc", p1)]; ok {
+		bmin = MinDeposit(p, mustPricing(b.Pricing)).Int64()
+		bdep = coinsAmt(b.Deposit).Int64()
+	}
+	short := bmin - bdep
+	if short > 1 {
+		s.r.Msg(types.NewMsgEnableServiceBinding("svc", p1, coins(short-1), o), "enable one unit short")
+	}
+	if short < 0 {
+		short = 0
+	}
+	s.r.Msg(types.NewMsgEnableServiceBinding("svc", p1, coins(short), o), "enable with exactly the missing amount")
+	s.r.Msg(types.NewMsgDisableServiceBinding("svc", p1, o), "")
+	// refund timing
+	b := s.r.pre.Bindings[bkey("svc", p1)]
+	deadline := b.DisabledTime.Add(p.ArbitrationTimeLimit).Add(p.ComplaintRetrospect)
+	s.r.Msg(types.NewMsgRefundServiceDeposit("svc", p1, o), "too early")
+	if d := deadline.Add(time.Duration(c.RefundOff)).Sub(s.r.w.now); d > 0 {
+		s.r.Block(d)
+	}
+	s.r.Msg(types.NewMsgRefundServiceDeposit("svc", p1, s.A.Stranger), "wrong signer")
+	s.r.Msg(types.NewMsgRefundServiceDeposit("svc", p1, o), fmt.Sprintf("refund at deadline%+dns", c.RefundOff))
+	s.r.Msg(types.NewMsgRefundServiceDeposit("svc", p1, o), "second refund")
+	s.r.Msg(types.NewMsgEnableServiceBinding("svc", p1, coins(bmin), o), "re-enable after refund")
+	s.r.Msg(types.NewMsgRefundServiceDeposit("svc", p1, o), "refund of an available binding")
+	s.r.Msg(types.NewMsgDisableServiceBinding("svc", p1, o), "")
+	s.r.Block(15*time.Second - 1)
+	s.r.Msg(types.NewMsgRefundServiceDeposit("svc", p1, o), "1ns early after re-disable")
+	s.r.Block(1)
+	s.r.Msg(types.NewMsgRefundServiceDeposit("svc", p1, o), "exactly at the deadline")
+	s.r.Msg(types.NewMsgRefundServiceDeposit("svc", p2, o), "other binding still waiting")
+	s.block()
+	s.done()
+}
+
+func mustPricing(text string) *OPricing {
+	op, err := ParsePricingText(text)
+	must(err)
+	return op
+}
+
+func depositCases() []depositCase {
+	var out []depositCase
+	for _, base := range []int64{0, 1, 7} {
+		for _, mult := range []int64{1, 10} {
+			for _, mp := range []int64{0, 50} {
+				for _, sl := range []string{"0", "0.001", "0.5", "1"} {
+					for _, dd := range []int64{-1, 0, 3} {
+						for _, nb := range []int64{0, 9} {
+							for _, tu := range []int64{-1, 0} {
+								out = append(out, depositCase{Base: base, Multiple: mult, MinParam: mp, Slash: sl, DepDelta: dd, NewBase: nb, TopUp: tu,
+									Failures: int((base + mult + dd + nb + 4) % 4), RefundOff: []int64{-1, 0, 1}[(base+nb+dd+2)%3]})
+							}
+						}
+					}
+				}
+			}
+		}
+	}
+	return out
+}
+
+// ---------------------------------------------------------------------------
+// F6: earnings and withdrawals with prefix-related providers
+
+type earnCase struct {
+	Order   int // permutation index of the withdrawals
+	WaWhen  int // 0 never, 1 before earnings, 2 between, 3 after
+	Tax     string
+}
+
+func runEarn(a *App, mon *Mon, seed int64, c earnCase) {
+	p := baseParams()
+	p.ServiceFeeTax = sdk.MustNewDecFromStr(c.Tax)
+	s := newSc(a, mon, fmt.Sprintf("earn-%+v", c), seed, p, 1_000_000, 3, "")
+	o1, o2, o3 := s.A.Owners[0], s.A.Owners[1], s.A.Owners[2]
+	p1, p2, p3, p4 := s.A.SignProv[0], s.A.SignProv[1], s.A.SignProv[2], s.A.SignProv[3]
+	short1 := s.A.OddProv[0] // 13-byte prefix of p1, owned by o2
+	short2 := s.A.OddProv[1] // 1-byte prefix of p2, owned by o3
+	short3 := s.A.OddProv[7] // p3 without its denom tail, owned by o2
+	s.define("svc")
+	s.bind("svc", p1, o1, 1000, price("10"), 1)
+	s.bind("svc", p2, o1, 1000, price("7"), 1)
+	s.bind("svc", p3, o2, 1000, price("5"), 1)
+	s.bind("svc", p4, o3, 1000, price("3"), 1)
+	s.bind("svc", short1, o2, 1000, price("1"), 1)
+	s.bind("svc", short2, o3, 1000, price("1"), 1)
+	s.bind("svc", short3, o2, 1000, price("1"), 1)
+	s.bind("svc", o1, o1, 1000, price("2"), 1) // an owner that is its own provider
+	if c.WaWhen == 1 {
+		s.r.Msg(types.NewMsgSetWithdrawAddress(o1, s.A.Wallets[0]), "")
+		s.r.Msg(types.NewMsgSetWithdrawAddress(o2, s.A.Wallets[1]), "")
+	}
+	cons := s.A.Consumers[0]
+	earnRound := func() {
+		id := s.call("svc", []sdk.AccAddress{p1, p2, p3, p4, o1}, cons, 100, 2, false, false, 0, 0)
+		s.block()
+		for _, pr := range []sdk.AccAddress{p1, p2, p3, p4, o1} {
+			for _, rid := range s.pendingOf(id, pr) {
+				s.respond(rid, pr, 0)
+			}
+		}
+		s.block()
+	}
+	earnRound()
+	if c.WaWhen == 2 {
+		s.r.Msg(types.NewMsgSetWithdrawAddress(o1, s.A.Wallets[0]), "")
+		s.r.Msg(types.NewMsgSetWithdrawAddress(o3, o1), "another owner's account as wallet")
+	}
+	earnRound()
+	type wd struct{ o, p sdk.AccAddress }
+	ws := []wd{{o2, short1}, {o3, short2}, {o2, short3}, {o1, p1}, {o1, nil}, {o2, nil}, {o3, p4}, {o1, p2}, {o2, p3}, {o1, o1}, {o3, nil}, {o2, p1}, {o1, short1}}
+	rng := rand.New(rand.NewSource(int64(c.Order)*7919 + 1))
+	rng.Shuffle(len(ws), func(i, j int) { ws[i], ws[j] = ws[j], ws[i] })
+	for i, w := range ws {
+		s.r.Msg(types.NewMsgWithdrawEarnedFees(w.o, w.p), "")
+		if i == 4 {
+			if c.WaWhen == 3 {
+				s.r.Msg(types.NewMsgSetWithdrawAddress(o2, s.A.Wallets[0]), "")
+			}
+			earnRound()
+		}
+	}
+	s.block()
+	s.done()
+}
+
+func earnCases(n int) []earnCase {
+	var out []earnCase
+	for i := 0; i < n; i++ {
+		out = append(out, earnCase{Order: i, WaWhen: i % 4, Tax: []string{"0.1", "0", "0.5", "0.999999999999999999"}[(i/4)%4]})
+	}
+	return out
+}
+
+// ---------------------------------------------------------------------------
+// F7: module-service calls
+
+type modSvcCase struct {
+	Pricing   string
+	Cap       int64
+	Behaviour ModSvcBehaviour
+	Balance   int64
+	Disable   bool
+}
+
+func runModSvc(a *App, mon *Mon, seed int64, c modSvcCase) {
+	p := baseParams()
+	p.SlashFraction = sdk.NewDecWithPrec(5, 1)
+	s := newSc(a, mon, fmt.Sprintf("modsvc-%+v", c), seed, p, c.Balance, 0, c.Pricing)
+	s.r.SetModSvcBehaviour(c.Behaviour)
+	cons := s.A.Consumers[1]
+	call := func(cn sdk.AccAddress, cap int64) {
+		s.r.Msg(types.NewMsgCallService(modSvcName, []sdk.AccAddress{s.r.w.a.modSvcProvider}, cn, goodInput, coins(cap), 1, false, false, 0, 0), "module-service")
+	}
+	call(cons, c.Cap)
+	call(cons, c.Cap)
+	// users cannot bind the reserved service
+	s.r.Msg(types.NewMsgBindService(modSvcName, s.A.SignProv[0], coins(1000), price("1"), 1, "{}", s.A.Owners[0]), "bind reserved service")
+	s.block()
+	call(s.A.Consumers[0], c.Cap)
+	// hostile shape: repeated / super / many providers in the message are ignored for module services
+	s.r.Msg(types.NewMsgCallService(modSvcName, []sdk.AccAddress{s.A.SignProv[0], s.A.SignProv[1]}, s.A.Consumers[0], goodInput, coins(c.Cap+3), 3, true, true, 5, 4), "module-service hostile shape")
+	s.block()
+	s.block()
+	s.r.SetModSvcBehaviour(ModSvcMalformed)
+	call(s.A.Consumers[0], c.Cap+5)
+	s.block()
+	s.block()
+	s.done()
+}
+
+func modSvcCases() []modSvcCase {
+	var out []modSvcCase
+	for _, pr := range []string{"0", "1", "3", "0.5"} {
+		for _, cap := range []int64{1, 2, 3, 10} {
+			for _, b := range []ModSvcBehaviour{ModSvcGood, ModSvcMalformed, ModSvcNoOutput} {
+				for _, bal := range []int64{0, 1, 3, 100} {
+					out = append(out, modSvcCase{Pricing: price(pr), Cap: cap, Behaviour: b, Balance: bal})
+				}
+			}
+		}
+	}
+	return out
+}
+
+// ---------------------------------------------------------------------------
+// F8: boundary-shape messages (every field at an extreme that ValidateBasic accepts)
+
+func runBoundary(a *App, mon *Mon, seed int64, variant int) {
+	p := baseParams()
+	if variant%2 == 1 {
+		p.MinDeposit = sdk.Coins{}
+		p.MinDepositMultiple = math.MaxInt64
+	}
+	s := newSc(a, mon, fmt.Sprintf("boundary-%d", variant), seed, p, 1_000_000, 3, price("1"))
+	o := s.A.Owners[0]
+	cons := s.A.Consumers[0]
+	p1 := s.A.SignProv[0]
+	long := serviceNames[4]
+	desc280 := string(make([]byte, 0))
+	for len(desc280) < 280 {
+		desc280 += "d"
+	}
+	tags := []string{}
+	for i := 0; i < 10; i++ {
+		tags = append(tags, fmt.Sprintf("%070d", i))
+	}
+	deep := `{"input":{"type":"object","properties":{"a":{"type":"object","properties":{"b":{"type":"object","properties":{"c":{"type":"array","items":{"type":"object"}}}}}}}},"output":{"type":"object"}}`
+	s.r.Msg(types.NewMsgDefineService(long, desc280, tags, o, desc280, deep), "maximal define")
+	s.r.Msg(types.NewMsgDefineService("svc", "", nil, o, "", goodSchemas), "minimal define")
+	s.r.Msg(types.NewMsgDefineService("svc2", "", nil, o, "", `{"input":{},"output":{}}`), "empty schemas")
+	huge, _ := sdk.NewIntFromString("57896044618658097711785492504343953926634992332820282019728792003956564819967") // 2^255-1
+	hugeCoins := sdk.NewCoins(sdk.NewCoin(denom, huge))
+	// binds
+	s.r.Msg(types.NewMsgBindService("svc", p1, sdk.Coins{}, price("1"), 1, "{}", o), "empty deposit list")
+	s.r.Msg(types.NewMsgBindService("svc", p1, nil, price("1"), 1, "{}", o), "nil deposit list")
+	s.r.Msg(types.NewMsgBindService("svc", p1, hugeCoins, price("1"), 1, "{}", o), "2^255-1 deposit")
+	s.r.Msg(types.NewMsgBindService("svc", p1, coins(1000), fmt.Sprintf(`{"price":"%s%s"}`, huge.String(), denom), 1, "{}", o), "2^255-1 price")
+	s.r.Msg(types.NewMsgBindService("svc", p1, coins(1000), price("99999999999999999999999999999999999999"), 1, "{}", o), "huge price")
+	s.r.Msg(types.NewMsgBindService("svc", p1, coins(1000), price("1"), math.MaxUint64, "{}", o), "max qos")
+	s.r.Msg(types.NewMsgBindService("svc", p1, sdk.NewCoins(sdk.NewCoin("atom", sdk.NewInt(5))), price("1"), 1, "{}", o), "foreign denom deposit")
+	s.r.Msg(types.NewMsgBindService("svc", p1, sdk.NewCoins(sdk.NewCoin("atom", sdk.NewInt(5)), sdk.NewCoin(denom, sdk.NewInt(5000))), price("1"), 1, "{}", o), "two-denom deposit")
+	s.r.Msg(types.NewMsgBindService("svc", p1, coins(5000), `{"price":"1atom"}`, 1, "{}", o), "foreign denom price")
+	s.r.Msg(types.NewMsgBindService("svc", p1, coins(5000), `{"price":"1stake","promotions_by_time":[],"promotions_by_volume":[]}`, 1, `[1,2,{"a":null}]`, o), "empty promotion lists, array options")
+	s.r.Msg(types.NewMsgBindService(long, s.A.OddProv[5], coins(5000), price("2"), 5, "{}", o), "40-byte provider, 70-char name")
+	s.r.Msg(types.NewMsgBindService("svc", s.A.OddProv[6], coins(5000), price("2"), 5, "{}", o), "provider with zero bytes")
+	// updates / enable with extreme values
+	s.r.Msg(types.NewMsgUpdateServiceBinding("svc", p1, hugeCoins, "", 0, "{}", o), "2^255-1 top-up")
+	s.r.Msg(types.NewMsgUpdateServiceBinding("svc", p1, nil, fmt.Sprintf(`{"price":"%s%s"}`, huge.String(), denom), 0, "{}", o), "update to 2^255-1 price")
+	s.r.Msg(types.NewMsgUpdateServiceBinding("svc", p1, nil, "", math.MaxUint64, "{}", o), "max qos update")
+	s.r.Msg(types.NewMsgUpdateServiceBinding("svc", p1, sdk.NewCoins(sdk.NewCoin("atom", sdk.NewInt(1))), "", 0, "{}", o), "foreign denom top-up")
+	s.r.Msg(types.NewMsgEnableServiceBinding("svc", p1, hugeCoins, o), "enable (available) with huge deposit")
+	s.r.Msg(types.NewMsgDisableServiceBinding("svc", p1, o), "")
+	s.r.Msg(types.NewMsgEnableServiceBinding("svc", p1, hugeCoins, o), "enable with 2^255-1 deposit")
+	s.r.Msg(types.NewMsgEnableServiceBinding("svc", p1, sdk.NewCoins(sdk.NewCoin("atom", sdk.NewInt(1))), o), "enable with foreign denom")
+	s.r.Msg(types.NewMsgEnableServiceBinding("svc", p1, nil, o), "enable without deposit")
+	s.r.Msg(types.NewMsgSetWithdrawAddress(o, sdk.AccAddress{0x01}), "1-byte withdrawal address")
+	s.r.Msg(types.NewMsgSetWithdrawAddress(o, o), "")
+	// calls
+	ten := append(append([]sdk.AccAddress{}, s.A.SignProv[:4]...), s.A.OddProv[:6]...)
+	s.r.Msg(types.NewMsgCallService("svc", ten, cons, goodInput, coins(5), 5, false, true, 5, -1), "ten providers")
+	s.r.Msg(types.NewMsgCallService("svc", []sdk.AccAddress{p1}, cons, goodInput, sdk.Coins{}, 1, false, false, 0, 0), "empty fee cap")
+	s.r.Msg(types.NewMsgCallService("svc", []sdk.AccAddress{p1}, cons, goodInput, hugeCoins, 1, false, true, 1, math.MaxInt64), "max total, huge cap")
+	s.r.Msg(types.NewMsgCallService("svc", []sdk.AccAddress{p1}, cons, goodInput, coins(5), 1, false, true, math.MaxUint64, 2), "frequency 2^64-1")
+	s.r.Msg(types.NewMsgCallService("svc", []sdk.AccAddress{p1}, cons, goodInput, coins(5), 1, false, true, 1<<63, 2), "frequency 2^63")
+	s.r.Msg(types.NewMsgCallService("svc", []sdk.AccAddress{p1}, cons, goodInput, coins(5), 1, false, true, 1<<63-1, 2), "frequency 2^63-1")
+	s.r.Msg(types.NewMsgCallService("svc", []sdk.AccAddress{p1}, cons, goodInput, coins(5), math.MaxInt64, false, false, 0, 0), "timeout 2^63-1")
+	s.r.Msg(types.NewMsgCallService("svc", []sdk.AccAddress{p1}, cons, goodInput, sdk.NewCoins(sdk.NewCoin("atom", sdk.NewInt(5))), 1, false, false, 0, 0), "foreign denom cap")
+	s.r.Msg(types.NewMsgCallService("svc", []sdk.AccAddress{p1}, cons, `{"header":{"a":{"b":{"c":[1,[2,[3]]]}}},"body":{}}`, coins(5), 1, true, false, 0, 0), "deep input, super mode")
+	s.r.Msg(types.NewMsgCallService("svc", []sdk.AccAddress{p1}, cons, goodInput, coins(5), 1, false, false, 7, 7), "one-shot with frequency/total set")
+	var ctxs []string
+	for _, id := range sortedKeys(s.r.pre.Contexts) {
+		ctxs = append(ctxs, id)
+	}
+	s.block()
+	for _, id := range ctxs {
+		s.r.Msg(types.NewMsgUpdateRequestContext(unhex(id), nil, nil, 0, math.MaxUint64, 0, cons), "update frequency to 2^64-1")
+		s.r.Msg(types.NewMsgUpdateRequestContext(unhex(id), nil, hugeCoins, 0, 0, math.MaxInt64, cons), "update total to 2^63-1")
+		s.r.Msg(types.NewMsgUpdateRequestContext(unhex(id), ten, nil, 0, 0, -1, cons), "update to ten providers, total -1")
+		s.r.Msg(types.NewMsgUpdateRequestContext(unhex(id), nil, nil, 0, 1<<63, 0, cons), "update frequency to 2^63")
+		s.r.Msg(types.NewMsgUpdateRequestContext(unhex(id), nil, sdk.NewCoins(sdk.NewCoin("atom", sdk.NewInt(5))), 0, 0, 0, cons), "update cap to foreign denom")
+	}
+	for _, rid := range s.r.pre.PendingIDs() {
+		r := s.r.pre.Requests[rid]
+		if len(r.Provider) == 20 {
+			s.r.Msg(types.NewMsgRespondService(unhex(rid), r.Provider, goodResult, `{"header":{},"body":{"deep":[[[[[[1]]]]]]}}`), "deep output")
+		}
+	}
+	s.r.Msg(types.NewMsgWithdrawEarnedFees(o, sdk.AccAddress{0x00}), "withdraw for a 1-byte provider")
+	s.r.Msg(types.NewMsgWithdrawEarnedFees(s.A.Stranger, nil), "withdraw with nothing earned")
+	for b := 0; b < 8; b++ {
+		s.block()
+	}
+	s.done()
+}
+
+// ---------------------------------------------------------------------------
+// F9: definitions and bindings over prefix-related names and several owners
+
+func runNames(a *App, mon *Mon, seed int64, variant int) {
+	p := baseParams()
+	s := newSc(a, mon, fmt.Sprintf("names-%d", variant), seed, p, 1_000_000, 3, "")
+	rng := rand.New(rand.NewSource(seed*31 + int64(variant)))
+	names := []string{"a", "ab", "a-b", "a_b", "abc", "a0", "b"}
+	rng.Shuffle(len(names), func(i, j int) { names[i], names[j] = names[j], names[i] })
+	for _, n := range names[:5] {
+		s.r.Msg(types.NewMsgDefineService(n, "first", []string{"t"}, s.A.Owners[rng.Intn(3)], "x", goodSchemas), "")
+	}
+	s.r.Msg(types.NewMsgDefineService(names[0], "second definition", nil, s.A.Stranger, "y", goodSchemas), "duplicate name")
+	provs := append(append([]sdk.AccAddress{}, s.A.SignProv...), s.A.OddProv...)
+	for i := 0; i < 18; i++ {
+		n := names[rng.Intn(len(names))]
+		pr := provs[rng.Intn(len(provs))]
+		o := s.A.Owners[rng.Intn(3)]
+		s.bind(n, pr, o, 600, price(fmt.Sprint(1+rng.Intn(5))), 1)
+	}
+	// operate on everything else and make sure definitions stay put
+	cons := s.A.Consumers[0]
+	for _, n := range names[:3] {
+		var ps []sdk.AccAddress
+		for _, bk := range sortedKeys(s.r.pre.Bindings) {
+			b := s.r.pre.Bindings[bk]
+			if b.ServiceName == n && len(ps) < 3 {
+				ps = append(ps, b.Provider)
+			}
+		}
+		if len(ps) > 0 {
+			s.call(n, ps, cons, 10, 2, false, true, 2, 2)
+		}
+	}
+	for b := 0; b < 6; b++ {
+		for _, rid := range s.r.pre.PendingIDs() {
+			r := s.r.pre.Requests[rid]
+			if len(r.Provider) == 20 && rng.Intn(2) == 0 {
+				s.respond(rid, r.Provider, rng.Intn(3))
+			}
+		}
+		s.block()
+	}
+	s.done()
+}
+
+
+// ---------------------------------------------------------------------------
+// F10: a batch that completes early (everybody answers), then pause/start/kill placed
+// between the completion and the batch's expiry block
+
+type earlyCase struct {
+	T       int64
+	F       uint64
+	PauseAt int // block offset after issue
+	StartAt int // >= PauseAt; 0 = never
+	Kill    bool
+	Module  bool
+	Second  int // who answers the next batch: 0 nobody, 1 all
+}
+
+func runEarly(a *App, mon *Mon, seed int64, c earlyCase) {
+	p := baseParams()
+	s := newSc(a, mon, fmt.Sprintf("early-%+v", c), seed, p, 1_000_000, 3, "")
+	p1, p2 := s.A.SignProv[0], s.A.SignProv[1]
+	s.define("svc")
+	s.bind("svc", p1, s.A.Owners[0], 1000, price("2"), 1)
+	s.bind("svc", p2, s.A.Owners[1], 1000, price("3"), 1)
+	cons := s.A.Consumers[0]
+	var id string
+	if c.Module {
+		cons = s.A.ModCons
+		id = s.modCreate("svc", []sdk.AccAddress{p1, p2}, cons, 10, c.T, true, c.F, 4, 2)
+	} else {
+		id = s.call("svc", []sdk.AccAddress{p1, p2}, cons, 10, c.T, false, true, c.F, 4)
+	}
+	op := func(o string) {
+		if c.Module {
+			s.modCtl(o, id, cons)
+		} else {
+			s.ctl(o, id, cons)
+		}
+	}
+	s.block() // batch 1 issued
+	first := true
+	for b := 1; b < int(c.F)*3+int(c.T)+3; b++ {
+		rc := s.r.pre.Contexts[id]
+		if first || c.Second == 1 || rc.BatchCounter == 1 {
+			for _, pr := range []sdk.AccAddress{p1, p2} {
+				for _, rid := range s.pendingOf(id, pr) {
+					if first || c.Second == 1 {
+						s.respond(rid, pr, 0)
+					}
+				}
+			}
+			first = false
+		}
+		if b == c.PauseAt {
+			if c.Kill {
+				op("kill")
+			} else {
+				op("pause")
+			}
+		}
+		if c.StartAt > 0 && b == c.StartAt {
+			op("start")
+		}
+		s.block()
+	}
+	s.done()
+}
+
+func earlyCases() []earlyCase {
+	var out []earlyCase
+	for _, T := range []int64{2, 3, 4} {
+		for _, df := range []uint64{0, 1, 3} {
+			for pa := 1; pa <= int(T)+1; pa++ {
+				for sa := pa; sa <= int(T)+2; sa++ {
+					for _, mod := range []bool{false, true} {
+						out = append(out, earlyCase{T: T, F: uint64(T) + df, PauseAt: pa, StartAt: sa, Module: mod, Second: (pa + sa) % 2})
+					}
+				}
+				out = append(out, earlyCase{T: T, F: uint64(T) + df, PauseAt: pa, StartAt: pa + 1, Kill: true, Module: pa%2 == 0})
+			}
+		}
+	}
+	return out
+}
+
+// ---------------------------------------------------------------------------
+
+func sampleIdx(rng *rand.Rand, n, k int) []int {
+	if k >= n {
+		out := make([]int, n)
+		for i := range out {
+			out[i] = i
+		}
+		return out
+	}
+	return rng.Perm(n)[:k]
+}
+
+// directedJobs assembles the directed families for a property and tier.
 func directedJobs(prop, tier string, seed int64) []job {
-	return nil
+	rng := rand.New(rand.NewSource(seed*977 + 13))
+	thorough := tier == "thorough"
+	q := func(quick, full int) int {
+		if thorough {
+			return full
+		}
+		return quick
+	}
+	serves := func(ps ...string) bool {
+		if prop == "all" {
+			return true
+		}
+		for _, p := range ps {
+			if p == prop {
+				return true
+			}
+		}
+		return false
+	}
+	var jobs []job
+	det := prop == "C20"
+	add := func(name string, f func(a *App, mon *Mon) *Run) {
+		jobs = append(jobs, job{name, func(a *App, mon *Mon) {
+			r := f(a, mon)
+			if det && r != nil {
+				checkDeterminism(mon, r, 3, false)
+			}
+		}})
+	}
+	// light-weight share of every family for every property, full weight where it serves
+	weight := func(ps ...string) int {
+		if serves(ps...) {
+			return 4
+		}
+		return 1
+	}
+
+	cc := cadenceCases()
+	for _, i := range sampleIdx(rng, len(cc), q(60*weight("C09", "C10", "C11", "C16", "C12"), len(cc))) {
+		c := cc[i]
+		add("cadence", func(a *App, mon *Mon) *Run { runCadence(a, mon, seed, c); return mon.run })
+	}
+	for _, c := range respCases(rng, q(40*weight("C08", "C02", "C12", "C04"), 3000)) {
+		c := c
+		add("resp", func(a *App, mon *Mon) *Run { runResp(a, mon, seed+int64(len(c.Offsets)), c); return mon.run })
+	}
+	fc := fundsCases()
+	for _, i := range sampleIdx(rng, len(fc), q(25*weight("C06", "C01", "C05", "C12", "C20"), len(fc))) {
+		c := fc[i]
+		add("funds", func(a *App, mon *Mon) *Run { runFunds(a, mon, seed, c); return mon.run })
+	}
+	pc := priceCases()
+	for _, i := range sampleIdx(rng, len(pc), q(30*weight("C07", "C01", "C06"), len(pc))) {
+		c := pc[i]
+		add("price", func(a *App, mon *Mon) *Run { runPrice(a, mon, seed, c); return mon.run })
+	}
+	dc := depositCases()
+	for _, i := range sampleIdx(rng, len(dc), q(40*weight("C14", "C03", "C04"), len(dc))) {
+		c := dc[i]
+		add("deposit", func(a *App, mon *Mon) *Run { runDeposit(a, mon, seed, c); return mon.run })
+	}
+	for _, c := range earnCases(q(8*weight("C13", "C18", "C17"), 400)) {
+		c := c
+		add("earn", func(a *App, mon *Mon) *Run { runEarn(a, mon, seed, c); return mon.run })
+	}
+	mc := modSvcCases()
+	for _, i := range sampleIdx(rng, len(mc), q(15*weight("C01", "C02", "C10", "C16"), len(mc))) {
+		c := mc[i]
+		add("modsvc", func(a *App, mon *Mon) *Run { runModSvc(a, mon, seed, c); return mon.run })
+	}
+	ec := earlyCases()
+	for _, i := range sampleIdx(rng, len(ec), q(20*weight("C12", "C10", "C11", "C16", "C09"), len(ec))) {
+		c := ec[i]
+		add("early", func(a *App, mon *Mon) *Run { runEarly(a, mon, seed, c); return mon.run })
+	}
+	for v := 0; v < q(2, 4); v++ {
+		v := v
+		add("boundary", func(a *App, mon *Mon) *Run { runBoundary(a, mon, seed, v); return mon.run })
+	}
+	for v := 0; v < q(4*weight("C15", "C17", "C18"), 300); v++ {
+		v := v
+		add("names", func(a *App, mon *Mon) *Run { runNames(a, mon, seed, v); return mon.run })
+	}
+	return jobs
 }
 
 func extraChecks(prop, tier string, seed int64, stats *Stats) {
 	want := func(p string) bool { return prop == "all" || prop == p }
 	if want("C18") {
 		st := NewStats()
-		staticC18(NewApp(), NewMon(st), seed, 300)
+		n := 300
+		if tier == "thorough" {
+			n = 3000
+		}
+		staticC18(NewApp(), NewMon(st), seed, n)
 		stats.Merge(st)
 	}
 }
-
-func cmdDigest(args []string) {}
